@@ -737,7 +737,23 @@ def gen_mode_page(rng, key=None, mode="rand"):
     return p
 
 
+def gen_opaque_mode_page(rng, long_ok):
+    """a mode page the library has no field table for (caching, power condition, protocol specific ...): it has to be stepped
+    over by its PAGE LENGTH; sub-page format pages may be longer than 255 bytes (e.g. SAS phy control and discover)"""
+    if rng.random() < 0.5:
+        code = rng.choice([0x01, 0x08, 0x1A, 0x1C, 0x18, 0x00 if False else 0x03])
+        return {"ps": rng.getrandbits(1), "spf": 0, "page_code": code, "_raw": gen.byte_string(rng, rng.choice([2, 6, 10, 18, 22]))}
+    n = rng.choice([4, 12, 44, 100, 252] + ([256, 260, 300, 1000] if long_ok else []))
+    return {"ps": rng.getrandbits(1), "spf": 1, "page_code": rng.choice([0x19, 0x18, 0x1A, 0x0A]), "sub_page_code": rng.choice([0x02, 0x03, 0xF1, 0xFE]),
+            "_raw": gen.byte_string(rng, n)}
+
+
 def encode_mode_page(p):
+    if "_raw" in p:
+        if p["spf"]:
+            return bytes(PAGE_HDR1.encode({"ps": p["ps"], "spf": 1, "page_code": p["page_code"], "sub_page_code": p["sub_page_code"],
+                                           "page_length": len(p["_raw"])}, bytearray(4))) + bytes(p["_raw"])
+        return bytes(PAGE_HDR0.encode({"ps": p["ps"], "spf": 0, "page_code": p["page_code"], "page_length": len(p["_raw"])}, bytearray(2))) + bytes(p["_raw"])
     key = (p["page_code"], p.get("sub_page_code") if p["spf"] else None)
     st = MODE_PAGES[key]
     b = bytearray(st.size)
@@ -753,8 +769,11 @@ def encode_mode_page(p):
 class ModeSense(Format):
     builder = True
 
-    def __init__(self, ten):
+    opaque_pages = True  # responses may carry pages without a field table (not so for what is handed to the *builders*)
+
+    def __init__(self, ten, opaque_pages=True):
         self.ten = ten
+        self.opaque_pages = opaque_pages
         self.name = "modesense10" if ten else "modesense6"
         self.decoder = ("scsi_cdb_modesense10", "ModeSense10") if ten else ("scsi_cdb_modesense6", "ModeSense6")
 
@@ -781,6 +800,12 @@ class ModeSense(Format):
         else:
             # what a device answers to page code 3Fh (return all pages): several pages, one after the other
             v["mode_pages"] = [gen_mode_page(rng, k, "rand") for k in rng.sample(list(MODE_PAGES), npages)]
+            # ... among them pages without a field table, which must be stepped over by their length
+            for _ in range(rng.choice([0, 1, 1, 2]) if self.opaque_pages else 0):
+                v["mode_pages"].insert(rng.randint(0, len(v["mode_pages"])), gen_opaque_mode_page(rng, self.ten))
+            if not self.ten:
+                while len(b"".join(encode_mode_page(p) for p in v["mode_pages"])) + 3 + 8 * nbd > 255:
+                    v["mode_pages"].pop()
         return v
 
     def encode(self, v):
